@@ -145,6 +145,13 @@ def main():
         if "@" in regex_text:
             run.count("at_sign_in_regex")
     lemmas.run_templates(run, equiv_tpls)
+    # an undefined reference must be reported EVERY time, whatever was compiled before with other macro files
+    seq_items = [
+        ("needs_leave_only_stack", {"pattern": ["@save", "nop", "@leave"]}, [("stack_macros.yaml", [{"name": "@save", "pattern": "push"}])]),
+        ("both_files", {"pattern": ["@save", "@idle", "@leave"]}, [("stack_macros.yaml", [{"name": "@save", "pattern": "push"}]), ("flow_macros.yaml", [{"name": "@leave", "pattern": "ret"}, {"name": "@idle", "pattern": "nop"}])]),
+        ("flow_only", {"pattern": ["@idle", "@leave"]}, [("flow_macros.yaml", [{"name": "@leave", "pattern": "ret"}, {"name": "@idle", "pattern": "nop"}])]),
+    ]
+    lemmas.sequence_invariance(run, seq_items, "macro_files")
     cov = {
         "programs": len(cs),
         "disagreements_checked": run.counts.get("disagreements_replayed", 0),
